@@ -86,6 +86,8 @@ pub fn check(tier: Tier) -> Check {
             tier.pick(15, 300),
         ));
     }
+    // the re-sent packets through a transport that takes them in pieces (gathering vectored writes)
+    parts.push(Part::new("C17/resume", json!({"depth": tier.pick(4, 5), "expiry": 1000, "secs_ago": 10, "wmode": "explore"}), tier.pick(1, 2), tier.pick(15, 300)));
     // two losses in a row: the session is resumed on a second and then on a third connection
     parts.push(Part::new("C17/resume", json!({"depth": tier.pick(4, 5), "expiry": 1000, "secs_ago": 10, "twice": true}), 0, tier.pick(15, 300)));
     parts.push(Part::new("C17/resume", json!({"depth": tier.pick(4, 5), "expiry": 1000, "secs_ago": 10, "twice": true, "r": 65535}), 0, tier.pick(15, 300)));
@@ -280,8 +282,20 @@ pub fn scenario_for(prop: &'static str, name: &str, params: &Value) -> Scenario 
                     sys.events.push("Run(resume)".into());
                     sys.classes.push(format!("Resume(expired={})", expired));
                     sys.m.resume(expired);
+                    // (params.wmode: how the transport takes the re-sent packets - every way of accepting
+                    // all / one byte / half / the first packet and one byte of the next / Pending, as
+                    // deviations; or half, Pending, the rest. The mock's write half gathers vectored writes.)
+                    match params["wmode"].as_str() {
+                        Some("explore") => sys.set_write_mode(crate::wire::WriteMode::Explore),
+                        Some("htp") => sys.set_write_mode(crate::wire::WriteMode::HalfThenPending),
+                        Some("one") => sys.set_write_mode(crate::wire::WriteMode::OneByte),
+                        _ => {}
+                    }
                     sys.w.cmd(CtxCmd::Run);
                     sys.sync();
+                    if params["wmode"].is_string() {
+                        sys.set_write_mode(crate::wire::WriteMode::All);
+                    }
                 }
                 // the acknowledgements arrive on the new connection, in every order
                 for _ in 0..3 {
